@@ -84,6 +84,16 @@ def run_check(prop, rules, tier, explanation, assumptions, trusted_base, nontriv
             return 2
         lib = Program(f["lib"])
         binp = Program(f["bin"])
+        renamed = 0
+        try:
+            with open(os.path.join(VERIF, "reference", "local_roles.json")) as fh:
+                roles = json.load(fh).get(cfg, {})
+            from .mir import apply_local_roles
+            renamed = apply_local_roles(lib, roles.get("lib")) + apply_local_roles(binp, roles.get("bin"))
+        except FileNotFoundError:
+            pass
+        from . import tables as _tables
+        _tables.PEVAL_PROG = lib
         ctx = Ctx(prop, tier, cfg, lib, binp, f["repo"])
         for rid, fnc in rules:
             ctx.rule = rid
